@@ -229,6 +229,25 @@ def gen_cases(tier, seed):
         sp['family'] = 'window'
         sp['entry'] = 'future.cancel'
         cases.append(sp)
+    # several user threads submit to one manager at overlapping times (one of them preempted inside the manager's bookkeeping
+    # update), every transfer is held at its first step, then the manager as a whole is told to stop: every one of the transfers
+    # is in flight and must end with the cancellation, none may go on to issue requests
+    for site in windows.rmw_cases(rng, nths=(0, 1, 2), reps=2 if quick else 12, files=['manager.py']):
+        if ':TransferManager.' not in site['yield']['window']['name']:
+            continue
+        how = rng.choice(['shutdown_cancel', 'shutdown_cancel', 'with_exc', 'with_kbi'])
+        n = rng.choice([2, 3, 4])
+        ts = []
+        for _ in range(n):
+            kind, extra = rng.choice(gen.KINDS)
+            ts.append(dict({'kind': kind, 'size': rng.choice([5, 20])}, **extra))
+        cfg = dict(multipart_threshold=16, multipart_chunksize=8, io_chunksize=4, max_submission_concurrency=n, max_request_concurrency=rng.choice([2, 4]))
+        sp = {'seed': rng.randrange(1 << 30), 'min_part': 8, 'config': cfg, 'transfers': ts, 'family': 'concurrent-submit', 'entry': how, 'mode': how,
+              'trigger': 'immediate', 'cancel_msg': rng.choice(msgs), 'concurrent_submit': True, 'yield': site['yield'],
+              'plan': {'gate': {'match': '/cb:on_queued', 'phase': 'before', 'count': n, 'after_cancel_begin': True}}}
+        if how == 'with_exc':
+            sp['with_exc_type'] = rng.choice([None, 'systemexit', 'base'])
+        cases.append(sp)
     rng.shuffle(cases)
     from ..gen import sprinkle
 
@@ -306,6 +325,20 @@ def evaluate(obs):
                 viol.append(oracles.V(f'{x.label}: {len(new)} new request(s) ({new[0]["op"]} ...) were begun after Ctrl-C had interrupted {how.split("_")[1]}() '
                                       f'although every unfinished transfer is cancelled then (outcome {x.outcome})', **oracles.base_mech(obs, x), entry=how,
                                       sym='request-after-interrupt', ntransfers=len(obs.xfers)))
+        if fam == 'concurrent-submit' and gate.get('after_cancel_begin'):
+            # every transfer was held in front of its on_queued step until the manager-wide cancel had begun, and is let go only once
+            # the process is quiescent again, i.e. with the cancelling call blocked waiting for the transfers: none of them had
+            # finished, so every one must report the cancellation, and none had issued a request, so none may issue one now
+            pre = x.label + '/cb:on_queued'
+            let_go = [e for e in obs.events if e['kind'] == 'gate.release' and e['key'].startswith(pre) and e['n'] < cb[0]['n']]
+            parked = [e for e in obs.events if e['kind'] == 'park' and e['key'].startswith(pre)]
+            if parked and not let_go:
+                stats['held_at_cancel'] = stats.get('held_at_cancel', 0) + 1
+                reqs = [e for e in obs.events if e['kind'] == 'api.begin' and e.get('label') == x.label]
+                if x.outcome == 'success' or reqs:
+                    viol.append(oracles.V(f'{x.label}: one of {len(obs.xfers)} transfers submitted from different threads, none of which had begun when {how} '
+                                          f'cancelled the manager\'s transfers, yet it went on ({len(reqs)} request(s)) and reports {x.outcome}',
+                                          **oracles.base_mech(obs, x), entry=how, sym='unstarted-transfer-escaped-cancel', ntransfers=len(obs.xfers)))
         if targeted or how not in ('future.cancel', 'kbi_result'):
             viol += oracles.cancel_oracle(obs, x, how, not_started=not_started, targeted=targeted)
             nontrivial = True
